@@ -248,7 +248,7 @@ class Explorer:
 BUILTIN_TYPES = {"int", "float", "bool", "str", "list", "dict", "tuple", "set", "object", "slice",
                  "Exception", "AssertionError", "NotImplementedError", "TypeError", "KeyError", "IndexError",
                  "ValueError", "ZeroDivisionError", "AttributeError"}
-BUILTIN_FUNCS = {"type", "setattr", "len", "range", "enumerate", "zip", "min", "max", "sum", "abs", "isinstance", "print", "eval",
+BUILTIN_FUNCS = {"type", "setattr", "divmod", "len", "range", "enumerate", "zip", "min", "max", "sum", "abs", "isinstance", "print", "eval",
                  "all", "any", "sorted", "super", "hash", "id", "repr", "round", "getattr", "hasattr", "iter",
                  "next", "reversed", "map", "filter", "open", "issubclass", "callable", "divmod"}
 
@@ -1039,6 +1039,19 @@ class Interp:
         finally:
             self.depth -= 1
 
+    def default_value(self, fi, key, node):
+        """python evaluates a default argument once, at definition time: a mutable default is one shared,
+        pre-existing object for every call"""
+        cache = self.ext_state.setdefault("__defaults__", {})
+        k = (fi.qualname, key)
+        if k not in cache:
+            v = self.eval_in_module(node, fi.module)
+            if isinstance(v, (PyList, PyDict, PySet)):
+                v.fresh = False
+                v.label = f"default argument of {fi.qualname}"
+            cache[k] = v
+        return cache[k]
+
     def bind_params(self, fi, args, kwargs):
         a = fi.node.args
         params = [p.arg for p in a.posonlyargs + a.args]
@@ -1061,14 +1074,14 @@ class Interp:
             if name in kwargs:
                 locs[name] = kwargs.pop(name)
             elif i >= first_default:
-                locs[name] = self.eval_in_module(defaults[i - first_default], fi.module)
+                locs[name] = self.default_value(fi, ("pos", i - first_default), defaults[i - first_default])
             else:
                 raise PyExc("TypeError", fi.lineno)
         for p, d in zip(a.kwonlyargs, a.kw_defaults):
             if p.arg in kwargs:
                 locs[p.arg] = kwargs.pop(p.arg)
             elif d is not None:
-                locs[p.arg] = self.eval_in_module(d, fi.module)
+                locs[p.arg] = self.default_value(fi, ("kw", p.arg), d)
             else:
                 raise PyExc("TypeError", fi.lineno)
         if a.kwarg is not None:
